@@ -182,7 +182,7 @@ pub fn check(hdr: &str, lines: &[String], trace: &[(String, String, Vec<String>)
                 if outs.iter().any(|o| o.starts_with("poll ") && !o.starts_with("poll err")) {
                     if let Some(am) = assocs.get_mut(&addr) {
                         let period: u64 = ws[2].parse().unwrap();
-                        am.polls.push(PollM { classes: ws[3].parse().unwrap(), period, due: now + period, demanded: false, removed: false, running: false });
+                        am.polls.push(PollM { classes: ws[3].parse().unwrap(), period, due: now.saturating_add(period), demanded: false, removed: false, running: false });
                     }
                 }
             }
@@ -635,7 +635,7 @@ pub fn check(hdr: &str, lines: &[String], trace: &[(String, String, Vec<String>)
                                     }
                                 }
                                 if let Some(p) = act.poll.and_then(|i| am.polls.get_mut(i)) {
-                                    p.due = now + p.period;
+                                    p.due = now.saturating_add(p.period);
                                     p.demanded = false;
                                     p.running = false;
                                 }
